@@ -48,6 +48,18 @@
  * glyph); that is accepted as well.  Content of the image files is not modelled (the
  * property only relates targets to each other).  The `--wrap' interposition records
  * offsets and forwards to the real function unchanged.
+ *
+ * Violation keys name the failing clause, not the concrete case.  Two page classes get a
+ * key of their own because one cause produces many symptoms there: image exports of a page
+ * whose last column holds the left half of a double width character (crash key carries
+ * that class), and image exports of a page with a VBI_OVER_TOP/BOTTOM cell whose left
+ * neighbour is not enlarged (no renderer draws such a cell, the exported bytes are stale
+ * buffer contents and differ between targets).  Rectangles whose last column is the left
+ * half of an enlarged character report under one key whatever the symptom (pixels right of
+ * the rectangle, wrap into the next line with an exact rowstride, bytes after the canvas).
+ * Combinations that crash in their first call are enumerated once (the engine stops a
+ * phase after 40 crashing cases).  Findings on the unchanged tree and proposed fixes:
+ * mutants/C16/README.md.
  */
 #include <stdio.h>
 #include <stdlib.h>
@@ -625,7 +637,7 @@ static void print_case(uint64_t idx, void *arg)
                 for (int w = 1; w <= 3 && c0 + w <= C; w++)
                         for (int h = 1; h <= 3 && r0 + h <= R; h++) { evals += print_region_all_sizes(a, fmt, c0, r0, w, h); regions++; }
         /* thorough: every column interval of this row */
-        if (mc_tier == MC_THOROUGH)
+        if (mc_tier == MC_THOROUGH && a->quick)
                 for (int c0 = 0; c0 < C; c0++)
                         for (int w = 4; c0 + w <= C; w++) { evals += print_region_all_sizes(a, fmt, c0, r0, w, 1); regions++; }
         /* full height columns */
@@ -680,7 +692,9 @@ static void render_case(uint64_t idx, void *arg)
                                                               : "full page rendering writes outside the canvas");
                 mc_violation(key, "page '%s' fmt=%d full page %dx%d: bytes %s the canvas of %zu bytes changed", a->name, v->fmt, C, R,
                              all_pat(Fa, GUARD) ? "after" : "before", Fbytes);
-                free(Fa); mc_count("evaluations", evals); return;
+                /* with a wide last column the damage is confined to the cells (r,0) the overflow wraps into,
+                 * which are not used as reference below; anything else makes the reference useless */
+                if (!wide) { free(Fa); mc_count("evaluations", evals); return; }
         }
 
         size_t maxbytes = (size_t)(C * CW * bpp + 32) * R * CH;
@@ -809,7 +823,7 @@ static void build_cases(void)
                                         int reveal = !(fl & 1), flash = !(fl & 2);
                                         if (PG[p].is_cc && fl) continue;
                                         if (fl && !(PG[p].has_conceal || PG[p].has_flash)) continue;
-                                        if (!thorough && fl && !(f == 0 && sk == 1) && !(f == 1 && sk == 0)) continue;
+                                        if (fl && !(f == 0 && sk == 1) && !(f == 1 && sk == 0)) continue;
                                         struct variant v = { f ? VBI_PIXFMT_PAL8 : VBI_PIXFMT_RGBA32_LE, f ? 1 : 4, sk, reveal, flash };
                                         for (int c0 = 0; c0 < PG[p].pg.columns; c0++)
                                                 RC[nRC++] = (struct rcase){ p, v, c0, thorough && PG[p].quick };
@@ -834,12 +848,18 @@ int main(int argc, char **argv)
         mc_meta("technique", "bounded-exhaustive enumeration of (page, export module, option vector, target, buffer size), (page, format, region, buffer size) and (page, pixel format, rowstride, reveal, flash, rectangle) on pages produced by the real decoders; relational oracle between the four export targets, independent text model, patterned arena around canvases, ASan red zones right after caller buffers");
         mc_meta("rule", "one case = one (page, module, option vector[, size chunk]) / (page, format, first row) / (page, render variant, first column); every case calls the library and is non-trivial; distinct counts these work units; evaluations counts library calls whose result was checked");
         mc_meta("bound", "%d pages (%d Teletext, 41x25/41x12/41x1; %d caption 34x15) x 5 modules x %d option vectors; mem sizes: text/html all 0..needed+1, images {0..K} + {needed-K..needed+1} + write boundaries +-1 (K=%d, default vector K=%d); print: %d formats, full-width, small (<=3x3), column%s regions, all sizes; render: %s rectangles x 2 formats x 3 rowstrides x reveal x flash",
-                nPG, nPG - 4, 4, nOPT, K_gfx, K_gfx_full, NPFMT, mc_tier == MC_THOROUGH ? ", every row interval" : "",
+                nPG, nPG - 4, 4, nOPT, K_gfx, K_gfx_full, NPFMT, mc_tier == MC_THOROUGH ? ", every column interval of a row" : "",
                 mc_tier == MC_THOROUGH ? "all (quick-subset pages) / small+full-row+full-column (others)" : "small (<=3x3) + full-row + full-column");
         mc_meta("assume", "iconv of the C library is correct (used by the oracle with its own descriptors)");
         mc_meta("assume", "libpng/zlib are deterministic for identical input (PNG bytes are only compared between targets)");
         mc_meta("assume", "pages outside the alphabet (Level 3.5 side panels, Arabic/Hebrew sets, object pages) are not covered");
-        if (mc_tier != MC_THOROUGH) mc_meta("assume", "quick tier: %d of %d pages, a subset of the option vectors, rectangles <= 3x3 plus full rows/columns", 0, nPG);
+        {
+                int nq = 0, nqo = 0;
+                for (int i = 0; i < nPG; i++) nq += PG[i].quick;
+                for (int i = 0; i < nOPT; i++) nqo += OPT[i].quick;
+                if (mc_tier != MC_THOROUGH) mc_meta("assume", "quick tier: %d of %d pages, %d of %d option vectors, rectangles <= 3x3 plus full rows/columns, print formats ASCII/ISO-8859-1/UTF-8/UCS-2", nq, nPG, nqo, nOPT);
+                else mc_meta("assume", "thorough tier: the %d pages outside the quick subset get the %d quick option vectors, the small + full-row + full-column rectangle set and no column-interval print regions; reveal x flash other than (1,1) only for (RGBA32_LE, exact) and (PAL8, -1) on pages with concealed or flashing cells", nPG - nq, nqo);
+        }
 
         mc_pool("export", nEC, export_case, NULL, 300);
         mc_pool("print", nPC, print_case, NULL, 120);
